@@ -176,4 +176,35 @@ pub fn run(eng: &mut Engine) {
         },
     );
     crate::props::readfaults::add_part(eng, crate::props::readfaults::Kind::Lookup);
+    eng.max_shrink = Some(80);
+    eng.prop_part(
+        "lookups_during_publish",
+        "the C13 scheduler scenario restricted to lookup / batch_lookup requests: one writer actor publishing 1-5 epochs interleaved at storage-operation granularity with 1-3 reader actors (clone of the writer, cached / uncached read-only instances, a second cached directory) under the non-preemptive schedule, strided single / double preemptions and generated schedules; every non-error answer must name a really published (epoch, root) and verify against the epoch hash returned WITH it to the model's state at that epoch; evaluations = schedules executed; non-trivial = schedule with at least one preemption, distinct by (scenario, actor-per-step trace)",
+        eng.tier.pick(24, 300),
+        move || {
+            crate::props::c13::conc_strategy(thorough).prop_map(|mut c| {
+                use crate::props::c13::ROp;
+                let only_lookups = |ops: &mut Vec<ROp>| {
+                    for (i, op) in ops.iter_mut().enumerate() {
+                        let repl = match op {
+                            ROp::Lookup(_) | ROp::Batch(_) | ROp::Flush => None,
+                            ROp::History(s, _) => Some(ROp::Lookup(*s)),
+                            ROp::Audit(a, b) => Some(ROp::Batch(vec![*a, *b])),
+                            ROp::EpochHash | ROp::Pause(_) => Some(ROp::Lookup((i as u16).wrapping_mul(21845))),
+                        };
+                        if let Some(r) = repl {
+                            *op = r;
+                        }
+                    }
+                };
+                for (_, ops) in c.readers.iter_mut() {
+                    only_lookups(ops);
+                }
+                only_lookups(&mut c.after);
+                c.poller = false;
+                c
+            })
+        },
+        crate::props::c13::conc_check,
+    );
 }
